@@ -69,6 +69,10 @@ fn tree() -> &'static Tree {
         populate(&root.join("base2"), "", 1, "OUTSIDE");
         std::fs::write(root.join("canary"), "OUTSIDE:canary").unwrap();
         std::fs::write(root.join("sibling"), "OUTSIDE:sibling").unwrap();
+        // files next to the base whose names extend the base directory's name
+        for suffix in [".j2", ".jinja", ".html", ".txt", ".bak", "~"] {
+            std::fs::write(root.join(format!("base{suffix}")), format!("OUTSIDE:base{suffix}")).unwrap();
+        }
         Tree { root, base }
     })
 }
